@@ -134,6 +134,12 @@ impl RefClient {
                 cmd.pre_exec(|| {
                     // pin the address-space layout in this world (ASLR stays on in world A)
                     libc::personality(libc::ADDR_NO_RANDOMIZE as libc::c_ulong);
+                    // a smaller machine: this world sees two CPUs (world A sees all of them)
+                    let mut set: libc::cpu_set_t = std::mem::zeroed();
+                    libc::CPU_ZERO(&mut set);
+                    libc::CPU_SET(0, &mut set);
+                    libc::CPU_SET(1, &mut set);
+                    libc::sched_setaffinity(0, std::mem::size_of::<libc::cpu_set_t>(), &set);
                     Ok(())
                 });
             }
